@@ -439,3 +439,28 @@ fn q_iter_owning_source() {
     drop(a);
     finish(3);
 }
+
+// header and element of different alignment through the Vec constructor: elements land in the slice field, not right
+// behind the header
+#[kani::proof]
+#[kani::unwind(6)]
+#[kani::stub(std::alloc::alloc, alloc_stub)]
+#[kani::stub(alloc::alloc::dealloc_nonnull, dealloc_stub)]
+fn q_vec_padded_header_element() {
+    crate::ghost::arm();
+    let (h, x, y): (u8, u32, u32) = kani::any();
+    let mut v = Vec::with_capacity(2);
+    v.push(x);
+    v.push(y);
+    let a = Arc::from_header_and_vec(h, v);
+    assert!(a.header == h && a.slice.len() == 2 && a.slice[0] == x && a.slice[1] == y, "contents differ from the input");
+    assert!((a.slice.as_ptr() as usize) % 4 == 0 && n_live() == 1);
+    drop(a);
+    let mut w = Vec::with_capacity(1);
+    w.push(kani::any::<u64>());
+    let w0 = w[0];
+    let b = Arc::from_header_and_vec(kani::any::<u16>(), w);
+    assert!(b.slice[0] == w0 && (b.slice.as_ptr() as usize) % 8 == 0);
+    drop(b);
+    assert!(n_live() == 0);
+}
